@@ -169,7 +169,7 @@ Definition y_lang (_ : N) : Stats.lang := {| Stats.l_lang := 0; Stats.l_adv := 0
 Definition y_true (_ : N) : bool := true.
 Definition y_false (_ : N) : bool := false.
 
-Definition y_world : world := world_of toyH y_base y_man y_ppf y_ccf y_true y_lang y_false y_true y_true.
+Definition y_world : world := world_of toyH y_base y_man y_ppf y_ccf y_true y_lang y_false y_true y_true y_false y_false.
 
 Ltac y_cases t := destruct (t =? 0); [|destruct (t =? 1)].
 
@@ -185,7 +185,7 @@ Lemma y_instance :
                 encode_pp toyH the_spec (y_base t) = encode_pp toyH the_spec (y_base t')) /\
   (forall t t', toyH (input (y_base t)) = toyH (input (y_base t')) -> input (y_base t) = input (y_base t')) /\
   (forall t t', toyH (time_pre (y_base t)) = toyH (time_pre (y_base t')) -> time_pre (y_base t) = time_pre (y_base t')) /\
-  (forall t, sane (y_world t)) /\
+  (forall t, sane (y_world t)) /\ (forall t, calm_oracle (y_world t)) /\
   (* three different result keys, and the world's units are served as C09 says *)
   o_key (y_world 0) <> o_key (y_world 1) /\ o_key (y_world 0) <> o_key (y_world 2) /\
   o_key (y_world 1) <> o_key (y_world 2).
@@ -202,7 +202,7 @@ Proof.
           first [discriminate E | reflexivity]|].
   split; [intros t t'; unfold y_base; y_cases t; y_cases t'; vm_compute; intro E;
           first [discriminate E | reflexivity]|].
-  split; [intros t _; reflexivity|].
+  split; [intros t _; reflexivity|]. split; [intro t; split; reflexivity|].
   repeat split; unfold not; vm_compute; intro E; discriminate E.
 Qed.
 End C09Ex.
